@@ -78,9 +78,12 @@ subset_history = st.fixed_dictionaries({
 _CC_PARTS = ['a', 'b', 'c', 'd', 'x', '5', '0', '_', ' ', '$', 'a-c', 'b-d', '0-9', 'a-z', '\\d', '\\D', '\\s', '\\S',
              '\\w', '\\i', '\\c', '\\p{Lu}', '\\P{Lu}', '\\p{L}', '\\p{Nd}', '\\P{Nd}', '\\W', '\\C',
              '\\p{IsBasicLatin}', '\\P{IsBasicLatin}', '\\n', '\\t', '\\-', '\\.', '\\\\', '\u0663', '\u00e9', 'A-Z']
+_INT_ARGS = [0x41, 0x61, 0x35, 0x24, 0x20, 0x5F, 0xE9, 0x663, 0x2028, 0x4E00]
 _cc_charset = st.lists(st.sampled_from(_CC_PARTS), min_size=1, max_size=3).map(''.join)
 _cc_op = st.one_of(
     st.tuples(st.sampled_from(['add', 'add', 'discard']), _cc_charset).map(list),
+    # MutableSet-style integer arguments (a code point of the probe universe)
+    st.tuples(st.sampled_from(['add', 'discard', 'discard']), st.sampled_from(_INT_ARGS)).map(list),
     st.sampled_from([['complement'], ['len'], ['iter']]),
     st.tuples(st.sampled_from(['isub', 'sub']), st.lists(st.tuples(st.sampled_from(['add', 'complement']),
                                                                     _cc_charset).map(list), max_size=3)).map(list),
@@ -505,12 +508,12 @@ def judge_cclass(case, rec: Recorder | None = None) -> list[Disc]:
             """apply add/discard/complement to object and model"""
             if name == 'add':
                 self.cc.add(arg)
-                mm, uu = _charset_members(arg)
+                mm, uu = ({arg} & U, set()) if isinstance(arg, int) else _charset_members(arg)
                 self.M = self.M | mm
                 self.und |= uu
             elif name == 'discard':
                 self.cc.discard(arg)
-                mm, uu = _charset_members(arg)
+                mm, uu = ({arg} & U, set()) if isinstance(arg, int) else _charset_members(arg)
                 self.M = self.M - mm
                 self.und |= uu
             elif name == 'complement':
@@ -536,7 +539,7 @@ def judge_cclass(case, rec: Recorder | None = None) -> list[Disc]:
         try:
             if name in ('add', 'discard', 'complement'):
                 st_.apply(name, op[1] if len(op) > 1 else None)
-                st_.verify(f'{name}/{kind}', i, op)
+                st_.verify(f'{name}{"-int" if len(op) > 1 and isinstance(op[1], int) else ""}/{kind}', i, op)
             elif name == 'len':
                 if not cc.negative._codepoints:
                     n = len(cc)
@@ -623,6 +626,16 @@ def _subset_runs(subsets: dict):
             runs.append((a, b, name))
     runs.sort()
     return runs
+
+
+def _norm_spans(spans):
+    out = []
+    for a, b in sorted(spans):
+        if out and a <= out[-1][1]:
+            out[-1] = (out[-1][0], max(out[-1][1], b))
+        else:
+            out.append((a, b))
+    return out
 
 
 def _merge_runs(runs):
@@ -777,21 +790,93 @@ def judge_tables(case, rec: Recorder | None = None) -> list[Disc]:
         d = json.loads(out.stdout)
         if d['version'] in us.UNICODE_VERSIONS and d['version'] != unicodedata.unidata_version:
             discs += _check_version_tables(d['version'], [tuple(r) for r in d['runs']], rec, 'usr-bin-python3')
+    elif mode == 'url':
+        # the third way to obtain tables: get_categories_from_url() on a UnicodeData.txt (here synthesized from
+        # unicodedata in the official format, with <.., First>/<.., Last> pairs, served through a file:// URL)
+        import tempfile
+        truth = _cat_runs_from_unicodedata()
+        lines = []
+        for a, b, c in truth:
+            if c == 'Cn':
+                continue                      # unassigned code points are not listed in UnicodeData.txt
+            if b - a > 20:
+                lines.append('%04X;<R%X, First>;%s;0;L;;;;;N;;;;;' % (a, a, c))
+                lines.append('%04X;<R%X, Last>;%s;0;L;;;;;N;;;;;' % (b - 1, a, c))
+            else:
+                lines.extend('%04X;N%X;%s;0;L;;;;;N;;;;;' % (cp, cp, c) for cp in range(a, b))
+        with tempfile.TemporaryDirectory() as d:
+            path = os.path.join(d, 'UnicodeData.txt')
+            with open(path, 'w') as f:
+                f.write('\n'.join(lines) + '\n')
+            try:
+                cats = us.get_categories_from_url('file://' + path)
+            except Exception as e:
+                return [Disc(escape_bucket('C13', e) + '/url-install', 'categories', repr(e))]
+        for n in uniclass.CATEGORIES:
+            if n not in cats:
+                if any(c == n for _, _, c in truth):
+                    discs.append(Disc('C13/tables/url/category-missing', n, sorted(cats)[:5]))
+                continue
+            p_ = [t for t in _rep_problems(cats[n]._codepoints) if t != 'singleton-as-range']
+            if p_:
+                discs.append(Disc(f'C13/tables/url/rep/{p_[0]}', 'canonical', n))
+        got = _merge_runs(_subset_runs({n: cats[n] for n in uniclass.CATEGORIES if n in cats}))
+        if got != _merge_runs(truth):
+            dd = sorted(set(got) ^ set(_merge_runs(truth)))[0]
+            discs.append(Disc('C13/tables/category-mismatch/url', 'unicodedata', dd, f'first differing run {dd[0]:#x}-{dd[1]:#x} {dd[2]}'))
+        for mj in uniclass.MAJORS:
+            if mj not in cats:
+                discs.append(Disc('C13/tables/url/category-missing', mj, sorted(cats)[:5]))
+                continue
+            pm = [t for t in _rep_problems(cats[mj]._codepoints) if t != 'singleton-as-range']
+            if pm:
+                discs.append(Disc(f'C13/tables/url/rep/{pm[0]}', 'canonical', mj))
+            want = _norm_spans([x for n in uniclass.CATEGORIES if n[0] == mj and n in cats for x in _spans(cats[n]._codepoints)])
+            if _norm_spans(_spans(cats[mj]._codepoints)) != want:
+                discs.append(Disc('C13/tables/major-not-union/url', 'union of subcategories', mj))
+        if rec is not None:
+            rec.case(['tables', 'url'], nontrivial=True, classes=['tables:url'],
+                     sample={'check': 'tables', 'mode': 'url', 'lines': len(lines)})
+            rec.extra['codepoints_compared_exactly'] = rec.extra.get('codepoints_compared_exactly', 0) + MAXU + 1
     elif mode == 'version':
+        from elementpath.regex import CharacterClass
         before = unicode_version()
         discs += _check_version_tables(case['version'], None, rec, 'structural')
+
+        def shortcut_problems(tag):
+            # the multi-character escapes of a CharacterClass must follow the INSTALLED data: \d = Nd, \w = L|M|N|S
+            # (history: they are lazily cached, the cache must be dropped by install_unicode_data)
+            out = []
+            want_d = _norm_spans(_spans(unicode_category('Nd')._codepoints))
+            got_d = _norm_spans(_spans(CharacterClass('\\d').positive._codepoints))
+            if got_d != want_d:
+                out.append(Disc(f'C13/tables/shortcut-stale/d/{tag}', 'category Nd of the installed version',
+                                sorted(set(got_d) ^ set(want_d))[:3], f'version {unicode_version()}'))
+            want_w = _norm_spans([x for c in 'LMNS' for x in _spans(unicode_category(c)._codepoints)])
+            got_w = _norm_spans(_spans(CharacterClass('\\w').positive._codepoints))
+            if got_w != want_w:
+                out.append(Disc(f'C13/tables/shortcut-stale/w/{tag}', 'L|M|N|S of the installed version',
+                                sorted(set(got_w) ^ set(want_w))[:3], f'version {unicode_version()}'))
+            neg = CharacterClass('\\D').negative._codepoints
+            if _norm_spans(_spans(neg)) != want_d:
+                out.append(Disc(f'C13/tables/shortcut-stale/D/{tag}', 'category Nd of the installed version', neg[:3]))
+            return out
+
         # install / restore round trip through the public API (state reset afterwards)
         try:
+            discs += shortcut_problems('default-before')          # fills the lazy cache under the default data
             install_unicode_data(case['version'])
             if unicode_version() != case['version']:
                 discs.append(Disc('C13/tables/install-version', case['version'], unicode_version()))
             nd = unicode_category('Nd')
             if ord('5') not in nd or ord('a') in nd:
                 discs.append(Disc('C13/tables/install-content', "'5' in Nd", nd._codepoints[:5], case['version']))
+            discs += shortcut_problems('after-install')
         finally:
             install_unicode_data()
         if unicode_version() != before:
             discs.append(Disc('C13/tables/install-restore', before, unicode_version()))
+        discs += shortcut_problems('after-restore')
     return discs
 
 
@@ -823,6 +908,7 @@ def jobs(tier, seed):
         out.append({'check': 'cclass', 'shard': i, 'n': per_c, 'seed': derive_seed(seed, 'C13', 'cclass', i)})
     out.append({'check': 'tables', 'cases': [{'mode': 'installed'}]})
     out.append({'check': 'tables', 'cases': [{'mode': 'other-python'}]})
+    out.append({'check': 'tables', 'cases': [{'mode': 'url'}]})
     vers = list(us.UNICODE_VERSIONS)
     k = 4
     for i in range(k):
